@@ -25,6 +25,9 @@ import (
 // how long a passive socket waits for the client to connect
 const passiveAcceptTimeout = 30 * time.Second
 
+// how long a data connection may stay idle in the middle of a transfer
+const dataIdleTimeout = 30 * time.Second
+
 // A data socket is used to send non-control data between the client and
 // server.
 type DataSocket interface {
@@ -84,10 +87,12 @@ func (socket *ftpActiveSocket) Port() int {
 }
 
 func (socket *ftpActiveSocket) Read(p []byte) (n int, err error) {
+	socket.conn.SetDeadline(time.Now().Add(dataIdleTimeout))
 	return socket.conn.Read(p)
 }
 
 func (socket *ftpActiveSocket) Write(p []byte) (n int, err error) {
+	socket.conn.SetDeadline(time.Now().Add(dataIdleTimeout))
 	return socket.conn.Write(p)
 }
 
@@ -134,6 +139,7 @@ func (socket *ftpPassiveSocket) Read(p []byte) (n int, err error) {
 	if err := socket.waitForOpenSocket(); err != nil {
 		return 0, err
 	}
+	socket.conn.SetDeadline(time.Now().Add(dataIdleTimeout))
 	return socket.conn.Read(p)
 }
 
@@ -141,6 +147,7 @@ func (socket *ftpPassiveSocket) Write(p []byte) (n int, err error) {
 	if err := socket.waitForOpenSocket(); err != nil {
 		return 0, err
 	}
+	socket.conn.SetDeadline(time.Now().Add(dataIdleTimeout))
 	return socket.conn.Write(p)
 }
 
